@@ -256,6 +256,7 @@ Definition layer_keys (L : layer) : list key := flat_map (file_keys L) (seq 0 (l
 (* ---------- histories ---------- *)
 Inductive op :=
 | Read (i : nat) (off len : Z)        (* OpenFile(id).ReadAt(p, off), len(p) = len *)
+| ReadI (i : nat) (off len : Z) (env : nat -> bool -> cache -> cache)   (* the same, interleaved with interference *)
 | Prefetch                            (* VerifiableReader.Cache(): every chunk of every regular file is cached *)
 | Evict (ks : list key)               (* these keys disappear from the cache *)
 | Env (c : cache).                    (* any interference: the cache is replaced by an arbitrary (honest) one *)
@@ -263,6 +264,7 @@ Inductive op :=
 Definition step (L : layer) (c : cache) (o : op) : cache * option (rres * list ev) :=
   match o with
   | Read i off len => let '(r, c', tr) := read_file L i c off len in (c', Some (r, tr))
+  | ReadI i off len env => let '(r, c', tr) := read_file_env L i env c off len in (c', Some (r, tr))
   | Prefetch => (add_honest L c (layer_keys L), None)
   | Evict ks => (fold_left cdel ks c, None)
   | Env c' => (c', None)
